@@ -186,6 +186,66 @@ theorem C04_mutation_witscript (hw : Function.Injective wsh) (env : Env) (s : Se
   rw [decodeOuts_none_of_mem wsh s k _ _ hmem hcl] at hdec
   cases hdec
 
+/-- **C04_htlc_sigs_canon.**  The HTLC signatures phase 2 returns are, in output order, signatures
+    under the channel's HTLC key over exactly the second-level HTLC transactions of the canonical
+    commitment: one per HTLC of the content, each spending the output of `canon c` at `vout` — which
+    is that HTLC's output (value, P2WSH of its HTLC script) —, with the HTLC script as redeem script,
+    the HTLC amount, locktime = cltv for offered / 0 for received, the type's sequence and sighash
+    flag, the fee-reduced (or, zero-fee, full) value paid to the to_local script.
+    (Phase 1, `sign_counterparty_commitment_tx`, returns the commitment signature only.) -/
+theorem C04_htlc_sigs_canon (env : Env) (s : Setup) (k : Keys) (c : Content) (sig : S) (hsigs : List S)
+    (h : phase2 wsh okey cr env s k c = .ok (sig, hsigs)) :
+    ∃ rtx, canon wsh okey s k c = some rtx ∧
+      sig = cr.sign env.fundingKey (cr.sighash rtx) ∧
+      hsigs = (htlcTxs wsh okey s k c rtx).map (fun t => cr.sign env.htlcKey (cr.htlcSighash t)) ∧
+      (htlcTxs wsh okey s k c rtx).length = c.offered.length + c.received.length ∧
+      ∀ t ∈ htlcTxs wsh okey s k c rtx, t.parent = rtx ∧
+        ∃ off hl, hl ∈ (if off then c.offered else c.received) ∧
+          rtx.outputs[t.vout]? = some ⟨hl.value, .p2wsh (wsh (htlcScript s k off hl))⟩ ∧
+          t.redeem = htlcScript s k off hl ∧ t.amount = hl.value ∧
+          t.locktime = (if off then hl.cltv else 0) ∧ t.value = htlcTxValue s c.feerate off hl ∧
+          t.value.isSome = true ∧
+          t.outScript = toLocalScript s k ∧ t.sequence = (if s.ctype.ldkAnchors then 1 else 0) ∧
+          t.singleAcp = s.ctype.ldkAnchors := by
+  unfold phase2 at h
+  split at h
+  · cases h
+  simp only at h
+  split at h
+  · cases h
+  split at h
+  · cases h
+  rename_i rtx hcanon
+  split at h
+  · cases h
+  rename_i hval
+  split at h
+  · cases h
+  injection h with h
+  injection h with hsig hh
+  refine ⟨rtx, hcanon, hsig.symm, hh.symm, ?_, ?_⟩
+  · unfold htlcTxs canonElems
+    rw [htlcTxsAux_length, (isort_perm _ _).countP_eq, rawElems_countP]
+  · intro t ht
+    have hv : t.value.isSome = true := by
+      simp only [List.any_eq_true, not_exists, not_and, Bool.not_eq_true] at hval
+      have := hval t ht
+      cases hx : t.value <;> simp_all
+    obtain ⟨j, e, off, hl, hj, he, hvout, hpar, hred, ham, hlt, hvl, hos, hsq, hacp⟩ :=
+      htlcTxsAux_spec s k c rtx _ 0 t ht
+    have hmem : e ∈ rawElems wsh s k c :=
+      (isort_perm _ _).subset (List.mem_of_getElem? hj)
+    obtain ⟨heq, hin⟩ := rawElems_htlc wsh s k c e hmem off hl he
+    refine ⟨hpar, off, hl, hin, ?_, hred, ham, hlt, hvl, hv, hos, hsq, hacp⟩
+    unfold canon at hcanon
+    split at hcanon
+    · cases hcanon
+    injection hcanon with hcanon
+    subst hcanon
+    simp only [hvout, Nat.zero_add, List.getElem?_map]
+    rw [hj, heq]
+    rfl
+
 /-! ## The full-strength agreement claim fails for the deprecated type `Anchors`
 
 `ChannelSetup::is_anchors()` (decoder) and LDK's `supports_anchors_zero_fee_htlc_tx()` (builder) differ
